@@ -282,7 +282,7 @@ pub fn run(ctx: &mut Ctx) {
             continue;
         }
         let mut p = Prng::new(sub, "c");
-        let ks = scalar_for(&mut p, i % 24);
+        let ks = scalar_for(&mut p, i % 28);
         // identities / messages beyond the 2^16-bit and 2^16-byte thresholds (length fields, counters, truncating casts)
         const LONG: [usize; 8] = [8185, 8186, 8191, 8192, 8193, 20000, 65536, 70001];
         let idlen = if i % 9 == 0 { 0 } else if i % 16 == 5 { LONG[((i / 16) % 8) as usize] } else { p.range(1, 64) };
